@@ -115,7 +115,7 @@ class RealEnv:
             return self.tn.tensor([v], dtype=self.dt(dtype))
         return v
 
-    def pos_tensor(self, name, shape, pattern, dtype='float64', source='torch'):
+    def pos_tensor(self, name, shape, pattern, dtype='float64', source='torch', phase_idx=None):
         n = 1
         for x in shape:
             n *= x
@@ -131,7 +131,7 @@ class RealEnv:
             for k, ix in enumerate(pattern):
                 m = abs(float(seeded_fraction(self.seed, name, k)))
                 if dtype.startswith('complex'):
-                    c, s_ = PHASES[k % len(PHASES)]
+                    c, s_ = PHASES[(phase_idx[k] if phase_idx else k) % len(PHASES)]
                     t[tuple(ix)] = complex(m * float(c), m * float(s_))
                 else:
                     t[tuple(ix)] = m
